@@ -34,7 +34,8 @@ class Contract:
         self.native = dict(kw.pop("native", {}))            # hints for native replay
         self.notes = kw.pop("notes", "")
         self.aux = set(kw.pop("aux", []))
-        self.options = dict(kw.pop("options", {}))             # engine options, e.g. {"div": "uninterpreted"}                   # labels of auxiliary (non property-level) clauses
+        self.options = dict(kw.pop("options", {}))
+        self.ghost_exit = dict(kw.pop("ghost_exit", {}))         # "self.ghost_field" -> expr, applied at every exit before the clauses             # engine options, e.g. {"div": "uninterpreted"}                   # labels of auxiliary (non property-level) clauses
         if kw:
             raise TypeError(f"unknown contract keys: {sorted(kw)}")
 
